@@ -319,7 +319,10 @@ impl Request {
             if !is_first_iteration {
                 header = Request::parse_http_request_header_string(&string);
                 if header.name == Header::_CONTENT_LENGTH {
-                    content_length = header.value.parse().unwrap();
+                    let boxed_content_length = header.value.parse();
+                    if boxed_content_length.is_ok() {
+                        content_length = boxed_content_length.unwrap();
+                    }
                 }
             }
 
